@@ -181,7 +181,11 @@ func genC20(g *Gen, i int) Group {
 			}
 		}
 		sid := 1 + i
-		tree = append(tree, Module{Kind: "module", Name: 1 + g.n(6), Mods: shared, Shared: sid}, Module{Kind: "module", Name: 1 + g.n(6), Mods: shared, Shared: sid})
+		n1, n2 := 1+g.n(6), 1+g.n(6)
+		if g.p(0.5) {
+			n2 = n1 // the same module value listed twice
+		}
+		tree = append(tree, Module{Kind: "module", Name: n1, Mods: shared, Shared: sid}, Module{Kind: "module", Name: n2, Mods: shared, Shared: sid})
 	}
 	tail := append(extraTail, queryOps(regs)...)
 	if g.p(0.3) {
@@ -307,6 +311,7 @@ func genContainer(g *Gen, prop string, i int) Group {
 	case "C03":
 		cfg.LifeWeights = [3]int{2, 2, 6}
 		cfg.MaxDeps = 4
+		cfg.PFault = 0.08 // (an optional field whose transient fails this time keeps its zero value, not last time's instance)
 	case "C05":
 		cfg.PCycle = 0.55
 		cfg.PGroup = 0.3
@@ -385,7 +390,7 @@ func genContainer(g *Gen, prop string, i int) Group {
 		h.MaxScopes = 6
 	}
 	regs := g.RegSet(cfg)
-	if prop == "C07" && i%7 == 5 {
+	if (prop == "C07" && i%7 == 5) || (prop == "C02" && i%13 == 5) {
 		return g.mixedGroupCase(i)
 	}
 	if (prop == "C01" || prop == "C06" || prop == "C08") && i%9 == 7 {
@@ -1601,7 +1606,30 @@ func (g *Gen) dupDepCase(i int) Group {
 	var ps []Param
 	inobj := g.p(0.5)
 	regs := []*Reg{x}
-	switch g.n(4) {
+	switch g.n(7) {
+	case 4:
+		// the same absent service once as an optional and once as a required field: it is required
+		ps = []Param{{Dep: Dep{Ty: tys[1], Opt: true}}, {Dep: Dep{Ty: tys[0]}}, {Dep: Dep{Ty: tys[1]}}}
+		if g.p(0.5) {
+			ps[0], ps[2] = ps[2], ps[0]
+		}
+		inobj = true
+	case 5, 6:
+		// one type as a plain dependency and as a group: two different dependencies - the group may close a cycle, hold
+		// a scoped member, or be empty
+		x.Life = lx
+		mem := &Reg{ID: g.nextRid, Life: g.life([3]int{1, 1, 1}), Form: Form{Kind: "ctor", Rets: []int{tys[0]}}, Dyn: []int{tys[0]}, CFail: []bool{false}, Group: 1}
+		g.nextRid++
+		if g.p(0.4) {
+			mem.Form.Params = []Param{{Dep: Dep{Ty: tys[2]}}} // the member needs the consumer: a cycle through the group
+			mem.Life = Transient
+		}
+		regs = append(regs, mem)
+		ps = []Param{{Dep: Dep{Ty: tys[0]}}, {Dep: Dep{Ty: tys[0], Group: 1}}}
+		if g.p(0.5) {
+			ps[0], ps[1] = ps[1], ps[0]
+		}
+		inobj = true
 	case 0, 1:
 		ps = []Param{{Dep: Dep{Ty: tys[0]}}, {Dep: Dep{Ty: tys[0]}}}
 		if g.p(0.3) {
